@@ -8,6 +8,7 @@ from .build import Ctx, make_graph
 from .loops import loop_graph_spec, loop_values
 from .observe import Outcome, _outcome
 from .sched import run_scheduled
+from .observe import arun as _arun
 
 
 class Call:
@@ -104,7 +105,7 @@ def execute(c, proc_factory, n_calls=None):
                     res = fn(g, dict(vals), event_processors=procs, **common)
                 elif runner_kind == "async":
                     fn = runner.map if method == "map" else runner.run
-                    res = asyncio.run(fn(g, dict(vals), event_processors=procs, **common))
+                    res = _arun(fn(g, dict(vals), event_processors=procs, **common))
                 else:
                     out, sched = run_scheduled(ctx, g, vals, c["sched"], runner=runner, processors=procs, method="map" if method == "map" else "run", **common)
                     if out.status == "raised":
